@@ -59,6 +59,13 @@ def gen_history(rng):
                 eqn = rng.choice(DEFS + ['HH__W * 0.5', 'GOV__T'])
             ops.append({'op': 'flow', 'term': text, 'sign': sign, 'core': core, 'eqn': eqn,
                         'is_income': rng.random() < 0.7, 'desc': rng.choice([None, 'a flow', ''])})
+        elif r < 0.83:
+            # a registration that must be REFUSED: a defining expression for a flow whose name is a full (double
+            # underscore) name of another sector; the caller catches the error and carries on
+            sign = rng.choice([1.0, -1.0])
+            core = rng.choice(['HH__W', 'GOV__T', 'BUS__DIV'])
+            ops.append({'op': 'flow_refused', 'term': ('-' if sign < 0 else rng.choice(['', '+'])) + core, 'sign': sign, 'core': core,
+                        'eqn': rng.choice(['5.', 'X1 + X2', '2*W']), 'is_income': rng.random() < 0.5, 'desc': 'cannot be defined here'})
         elif r < 0.86:
             ops.append({'op': 'addvar', 'name': rng.choice(NAMES), 'eqn': rng.choice(DEFS)})
         elif r < 0.92:
@@ -107,7 +114,9 @@ class C06(object):
                    'generated and replayed, INC not judged from then on',
                    "definitions spelled '0.' or '0' (grey zone of identically zero) are not generated"]
     required_counters = ('flow.judged', 'inc.judged', 'def.judged', 'insitu.addcashflow.post_evaluated',
-                         'registered.ledgers_judged', 'registered.histories_with_repeated_flow')
+                         'registered.ledgers_judged', 'registered.histories_with_repeated_flow',
+                         'refused_registration.judged',
+                         'registered.flows_under_temporary_names_repeated_and_cancelled')
 
     def n_cases(self, tier):
         return (300 if tier == 'quick' else 30000) + 1
@@ -148,6 +157,20 @@ class C06(object):
         for c, sec in S.items():
             sec.AddVariable('X', 'amount X', '1.0')
             sec.AddVariable('Y', 'amount Y', '2.0')
+        # flows booked directly under TEMPORARY names (requested before the full codes exist): repeated, and a cancelling pair;
+        # the later alias clean-up must keep their accumulated coefficients
+        direct = {}
+        if case.get('alias_flows', True):
+            nx = S['B'].GetVariableName('X')
+            ny = S['C'].GetVariableName('Y')
+            reps = 2 + (case['vseed'] % 2)
+            for _ in range(reps):
+                S['A'].AddCashFlow('+' + nx)
+            S['A'].AddCashFlow('+' + ny)
+            S['A'].AddCashFlow('-' + ny)
+            S['A'].AddCashFlow('-' + nx, is_income=False)
+            direct = {'F': {'B__X': float(reps - 1), 'C__Y': 0.0}, 'INC': {'B__X': float(reps), 'C__Y': 0.0}}
+            rec.count('registered.flows_under_temporary_names_repeated_and_cancelled')
         for r in case['regs']:
             mod.RegisterCashFlow(S[r['src']], S[r['dst']], r['var'], is_income_source=r['inc_src'], is_income_dest=r['inc_dst'])
         try:
@@ -177,6 +200,11 @@ class C06(object):
                         expF += amt
                         if r['inc_dst']:
                             expI += amt
+                if c == 'A':
+                    for nm_, cf_ in direct.get('F', {}).items():
+                        expF += cf_ * env[nm_]
+                    for nm_, cf_ in direct.get('INC', {}).items():
+                        expI += cf_ * env[nm_]
                 F, INC = sec.EquationBlock['F'].RHS(), sec.EquationBlock['INC'].RHS()
                 local = dict(env)
                 local['X'], local['Y'] = env[c + '__X'], env[c + '__Y']
@@ -258,6 +286,37 @@ class C06(object):
                         continue
                     sec.SetEquationRightHandSide(op['name'], op['eqn'])
                     defs[op['name']] = op['eqn']
+                    continue
+                if op['op'] == 'flow_refused':
+                    raised = None
+                    try:
+                        sec.AddCashFlow(op['term'], eqn=op['eqn'], desc=op['desc'], is_income=op['is_income'])
+                    except Exception as e:
+                        raised = type(e).__name__
+                    rec.count('refused_registration.judged')
+                    if raised is None:
+                        rec.violate('definition_for_a_foreign_full_name_not_refused', {'at': j, 'op': op})
+                        break
+                    # two readings of a refused registration are acceptable - the flow was booked before the definition
+                    # failed, or nothing was booked - but F and INC must agree on ONE of them
+                    counts_as_income = op['is_income'] and op['core'] not in shadow_excl
+                    for booked in (True, False):
+                        cF, cI = dict(coefF), dict(coefINC)
+                        if booked:
+                            cF[op['core']] = cF.get(op['core'], 0.0) + op['sign']
+                            if counts_as_income:
+                                cI[op['core']] = cI.get(op['core'], 0.0) + op['sign']
+                        probe = monitors.Recorder()
+                        if self.judge(sec, cF, cI, defs, envs, probe, j, op, inc_ambiguous, protected):
+                            coefF, coefINC = cF, cI
+                            if booked and counts_as_income:
+                                income_registered.add(op['core'])
+                            break
+                    else:
+                        rec.violate('ledgers_inconsistent_after_a_refused_registration',
+                                    {'at': j, 'op': op, 'F': sec.EquationBlock['F'].RHS(), 'INC': sec.EquationBlock['INC'].RHS(),
+                                     'shadow_F': coefF, 'shadow_INC': coefINC})
+                        break
                     continue
                 # flow
                 eqn = op['eqn'] if op['core'] not in protected else None
